@@ -54,8 +54,9 @@ def main(argv):
         except (TranslateError, SyntaxError, OSError, KeyError, AttributeError, IndexError, ValueError, TypeError) as exc:
             print(f'TRANSLATE-REFUSED {name}: {exc}')
             # fail closed: remove the stale file so nothing is proved about old source
-            if os.path.exists(path):
-                os.remove(path)
+            for ext in ('.v', '.vo', '.vok', '.vos', '.glob'):
+                if os.path.exists(path[:-2] + ext):
+                    os.remove(path[:-2] + ext)
             status = 2
             continue
         changed = write_if_changed(path, text)
